@@ -151,8 +151,11 @@ def build(scn, trace, fault=None, script=None):
     if how in ("object", "method"):
         class UserModel:
             def __init__(self, f):
+                import threading
+
                 self.f = f
                 self.received = 0
+                self._lock = threading.Lock()  # models own locks, sessions, open files: they cannot be deep-copied or pickled
 
             def __call__(self, x):
                 self.received += 1
